@@ -380,9 +380,26 @@ def run_check(prop, tier, verdict, extra_args=None):
             nviol += 1
     for j, rc, tail in incomplete:
         if not os.path.exists(j["crash"]):
-            verdict.notes.append("worker %s ended with status %s without a case file:\n%s" % (j["tag"], rc, tail))
-            print("INCONCLUSIVE worker %s died (status %s) without leaving a case" % (j["tag"], rc))
-            continue
+            # killed from outside (SIGKILL: out of memory / timeout) - run it once more; a death that
+            # repeats is the tree's doing (e.g. a library loop that never ends), not load noise
+            rc2, out2, err2 = one(j)
+            try:
+                with open(j["stats"]) as f:
+                    again = json.load(f).get("end")
+            except (OSError, ValueError):
+                again = False
+            if again and not os.path.exists(j["crash"]):
+                verdict.notes.append("worker %s died once (status %s) and completed when repeated" % (j["tag"], rc))
+                print("INCONCLUSIVE worker %s died once (status %s); its cases are not counted" % (j["tag"], rc))
+                continue
+            if not os.path.exists(j["crash"]):
+                dest = os.path.join(C.REPLAYS_TMP, "%s-%s-%d-died.txt" % (prop, j["tag"], seed))
+                with open(dest, "w") as f:
+                    f.write("worker died twice without leaving a case (status %s, %s)\ncommand: %s --prop %s --cfg %s --seed %s ...\n%s\n"
+                            % (rc, rc2, exe, prop, j["cfg"].name, j["seed"], (out2 + err2)[-3000:]))
+                verdict.violation(dest, "cfg=%s worker is killed reproducibly (status %s): runaway memory or a loop that never ends inside the library" % (j["cfg"].name, rc2))
+                nviol += 1
+                continue
         dest = os.path.join(C.REPLAYS_TMP, "%s-%s-%d-crash.replay" % (prop, j["tag"], seed))
         shutil.copyfile(j["crash"], dest)
         if not minimise_crash(exe, dest, prop):
